@@ -57,7 +57,7 @@ def model(kind, fp_start):
     return ModelSpec(f"model{kind}", ops, nodes, edges, note=f"history model {kind}")
 
 
-STEP_KINDS = ['compile', 'compile_keep', 'compile_inplace', 'compile_decorated', 'run', 'run_noclear', 'run_inplace',
+STEP_KINDS = ['compile', 'compile_keep', 'compile_inplace', 'compile_inplace_noclear', 'compile_decorated', 'run', 'run_noclear', 'run_inplace',
               'jac', 'clear', 'clear_frontend', 'update_var', 'yaml']
 
 
@@ -114,6 +114,10 @@ def job_fn(job):
                         # in-place translation followed by clear(): the template object stays usable
                         ct.get_run_func('vf', step_size=0.25, vectorize=v, verbose=False, float_precision='float64',
                                         in_place=True, clear=True, file_name='pyrates_run')
+                    elif act == 'compile_inplace_noclear':
+                        # in-place translation that is kept on the template (clear=False)
+                        ct.get_run_func('vf', step_size=0.25, vectorize=v, verbose=False, float_precision='float64',
+                                        in_place=True, clear=False, file_name='pyrates_run')
                     elif act == 'compile_decorated':
                         ct.get_run_func('vf', step_size=0.25, vectorize=v, verbose=False, float_precision='float64',
                                         in_place=False, file_name='pyrates_run', decorator=_halving)
@@ -165,6 +169,21 @@ def job_fn(job):
             if node not in spec.nodes:
                 out['violations'].append(dict(kind='state-map-name', what=f"target after history: state map names the "
                                               f"variable {k}; no node {node} was declared (names leak from earlier models)"))
+        # ---- the reused template object must also still simulate: function handed to the integrator by run() -------
+        if job.get('reuse') and not out['violations']:
+            try:
+                c_run = tv.capture_run(ct, simulation_time=0.5, step_size=0.25, outputs={'o': first_state(spec)},
+                                       vectorize=vec, solver='euler')
+            except tv.CompileError as e:
+                out['violations'].append(dict(kind='run-raises', what=f"after the history, run() on the same template "
+                                              f"object raises: {str(e)[:300]}"))
+                c_run = None
+            if c_run is not None:
+                r3 = tvspec.validate(spec, c_run, tally, vectorized=True, twin=False)
+                for v_ in r3['violations']:
+                    v_['what'] = f"function integrated by run() after the history: {v_.get('what')}"
+                out['violations'] += r3['violations']
+                out['inconclusive'] += r3['inconclusive']
         # ---- functions returned earlier ----------------------------------------------------
         for (m, ck, val, snap) in kept:
             r2 = tvspec.validate(specs[m], ck, tally, vectorized=True, twin=False)
@@ -213,7 +232,7 @@ def _opcache_job(job):
 def histories(tier, seed):
     rnd = random.Random(seed)
     H = []
-    acts = ['compile', 'compile_keep', 'compile_inplace', 'compile_decorated', 'run', 'run_noclear', 'run_inplace', 'jac',
+    acts = ['compile', 'compile_keep', 'compile_inplace', 'compile_inplace_noclear', 'compile_decorated', 'run', 'run_noclear', 'run_inplace', 'jac',
             'clear', 'clear_frontend', 'update_var', 'yaml']
     # hand-picked short histories named in the property
     for dec in 'ABCD':
@@ -229,6 +248,8 @@ def histories(tier, seed):
             H.append([(dec, 'compile_decorated', v)])
             H.append([(dec, 'compile_inplace', v)])
     H.append([('E', 'compile_decorated', True), ('E', 'compile_decorated', True)])
+    for v in (True, False):
+        H.append([('A', 'compile_inplace_noclear', v)])
     H.append([('A', 'compile_inplace', True), ('A', 'compile_inplace', False)])
     H.append([('A', 'compile_inplace', False), ('A', 'compile_inplace', True)])
     n = 16 if tier == 'quick' else 400
@@ -258,9 +279,13 @@ def run(tier='quick', seed=0, only=None, verbose=False):
                                  history=h, target=tgt, vectorize=vec, spec=model(tgt, 40 * 'ABCDE'.index(tgt))))
                 # the same template object again, when the history only translated it (in place + clear, or copies)
                 if any(m == tgt for m, a, _ in h) and all(a in ('compile', 'compile_keep', 'compile_inplace',
-                                                                 'compile_decorated', 'jac', 'yaml', 'update_var',
+                                                                 'compile_inplace_noclear', 'compile_decorated', 'jac', 'yaml', 'update_var',
                                                                  'clear_frontend', 'run', 'run_noclear')
                                                           for m, a, _ in h if m == tgt):
+                    # a translation KEPT on the template (clear=False) carries its state under the names of that layout:
+                    # re-translating with the other vectorize setting fails loudly (KeyError) and is not claimed
+                    if any(m == tgt and a == 'compile_inplace_noclear' and bool(v_) != bool(vec) for m, a, v_ in h):
+                        continue
                     jobs.append(dict(jobs[-1], key=jobs[-1]['key'] + '|reuse', reuse=True))
     if only:
         jobs = [j for j in jobs if only in j['key']]
